@@ -7,3 +7,8 @@ var requiredVW = restlicodec.NewRequiredFields().Add("v", "w")
 var pairRequired = restlicodec.NewRequiredFields().Add("a", "b")
 
 var requiredElements = restlicodec.NewRequiredFields().Add("elements")
+
+// exclusion probe (excl.go): Outer{id, child, items}; Inner{id, name}
+var exclOuterRequired = restlicodec.NewRequiredFields().Add("id", "child", "items")
+
+var exclInnerRequired = restlicodec.NewRequiredFields().Add("id", "name")
